@@ -40,12 +40,25 @@ func main() {
 		only     = flag.String("only", "", "print only the obligation with this key")
 		list     = flag.Bool("list", false, "print every obligation")
 		noEv     = flag.Bool("no-evidence", false, "do not write evidence (self-test subprocesses)")
+		dumpR    = flag.String("dump-roles", "", "development aid: write the role table of the unexported functions to this file and exit")
 		overlays multiFlag
 	)
 	flag.Var(&overlays, "overlay", "path=replacementfile (repeatable): analyse with file replaced in memory")
 	flag.Parse()
 	start := time.Now()
 
+	if *dumpR != "" {
+		p, err := loadProgram(*repo, nil)
+		if err != nil {
+			fmt.Fprintln(os.Stderr, err)
+			os.Exit(2)
+		}
+		if err := dumpRoles(p, *dumpR); err != nil {
+			fmt.Fprintln(os.Stderr, err)
+			os.Exit(2)
+		}
+		return
+	}
 	pd := props[*prop]
 	if pd == nil {
 		var ids []string
@@ -88,7 +101,11 @@ func main() {
 		os.Exit(2)
 	}
 	theProgram = p
+	renameNotes := resolveRenames(p, filepath.Join(*verif, "roles.json"))
 	c := newCtx(*prop, *tier, p)
+	for _, n := range renameNotes {
+		c.info("%s", n)
+	}
 	code := func() (code int) {
 		defer func() {
 			if r := recover(); r != nil {
